@@ -28,7 +28,8 @@ CONSTANTS Radius,      \* commits/tags: all cases within this Hamming distance o
           TreeMax,     \* trees: all entry sets up to this size over the ordering universe
           Alphabet,    \* bytes used in tree entry names of the ordering universe
           Kinds,       \* which object kinds this run enumerates
-          EmptyLine    \* the atom that is the empty line (0 in the pools, <<>> in traces)
+          EmptyLine,   \* the atom that is the empty line (0 in the pools, <<>> in traces)
+          Edits        \* TRUE: explore the one-field-edit graph (lemmas); FALSE: enumerate the cases only
 
 KW(w) == <<"k", w>>
 SP    == <<"s">>
@@ -85,18 +86,23 @@ Hdr(w, val) == HdrK(KW(w), val)
 Who(id, t, z) == <<V("id", id), SP>> \o DecTime(t) \o <<SP>> \o TzToks(z)
 
 \* ------------------------------------------------------------------ tag
-\* [target: [h, t], name, tagger: Seq(id) (0 or 1), ttime, ttz, message: Seq(line), signature: Seq(line)]
+\* [target: [h, t], name, tagger: Seq(id) (0 or 1), ttime, ttz, message: Seq(line), signature: Seq(line), blank]
 \* message = <<>> is "no message"; otherwise the message is its lines joined by LF
 \* (a trailing LF is a last empty line).  The signature is appended to the message.
+\* blank: the blank line that ends the headers is present.  Every object git writes has it; an
+\* object that simply ends after its last header is accepted by git too (fsck --strict) and is a
+\* different object ("message absent" as opposed to "message empty"): blank = FALSE, only
+\* together with an empty message and signature.
 TagSegs(t) ==
     [target    |-> Hdr("object", <<V("hex", t.target.h)>>) \o Hdr("type", <<KW(t.target.t)>>),
      name      |-> Hdr("tag", <<V("name", t.name)>>),
      tagger    |-> IF Len(t.tagger) = 0 THEN <<>> ELSE Hdr("tagger", Who(t.tagger[1], t.ttime, t.ttz)),
-     message   |-> <<LF>> \o JoinLF("ln", t.message),
+     message   |-> IF t.blank THEN <<LF>> \o JoinLF("ln", t.message) ELSE <<>>,
      signature |-> JoinLF("ln", t.signature)]
 SerTag(t) == LET s == TagSegs(t) IN s.target \o s.name \o s.tagger \o s.message \o s.signature
 
 TagOK(t) == /\ (Len(t.tagger) > 0 => TimeOK(t.ttime) /\ TzOK(t.ttz))
+            /\ (~t.blank => Len(t.message) = 0 /\ Len(t.signature) = 0)
             /\ t.target.t \in {"commit", "tree", "blob", "tag"}
 
 \* A tag embedded in a commit (mergetag): git embeds signed tags only, their text ends with LF
@@ -112,7 +118,7 @@ SerTagNoFinalLF(t) == LET s == TagSegs(t) IN
 
 \* ------------------------------------------------------------------ commit
 \* [tree, parents: Seq(hex), author, atime, atz, committer, ctime, ctz, encoding: Seq(atom) (0 or 1),
-\*  mergetags: Seq(tag record), extra: Seq([k, v: Seq(line)]), gpgsig: Seq(line), message: Seq(line)]
+\*  mergetags: Seq(tag record), extra: Seq([k, v: Seq(line)]), gpgsig: Seq(line), message: Seq(line), blank]
 CommitSegs(c) ==
     [tree      |-> Hdr("tree", <<V("hex", c.tree)>>),
      parents   |-> Cat([i \in 1..Len(c.parents) |-> Hdr("parent", <<V("hex", c.parents[i])>>)]),
@@ -122,16 +128,18 @@ CommitSegs(c) ==
      mergetags |-> Cat([i \in 1..Len(c.mergetags) |-> Hdr("mergetag", SerTagNoFinalLF(c.mergetags[i]))]),
      extra     |-> Cat([i \in 1..Len(c.extra) |-> HdrK(V("key", c.extra[i].k), JoinLF("ln", c.extra[i].v))]),
      gpgsig    |-> IF Len(c.gpgsig) = 0 THEN <<>> ELSE Hdr("gpgsig", JoinLF("ln", c.gpgsig)),
-     message   |-> <<LF>> \o JoinLF("ln", c.message)]
+     message   |-> IF c.blank THEN <<LF>> \o JoinLF("ln", c.message) ELSE <<>>]
 SerCommit(c) == LET s == CommitSegs(c) IN
     s.tree \o s.parents \o s.author \o s.committer \o s.encoding \o s.mergetags \o s.extra \o s.gpgsig \o s.message
 
 CommitOK(c) == /\ TimeOK(c.atime) /\ TimeOK(c.ctime) /\ TzOK(c.atz) /\ TzOK(c.ctz)
                /\ \A i \in 1..Len(c.mergetags) : TagOK(c.mergetags[i]) /\ EndsWithLF(c.mergetags[i])
                /\ \A i \in 1..Len(c.extra) : Len(c.extra[i].v) >= 1
+               /\ (~c.blank => Len(c.message) = 0)
 
 \* segment a field belongs to (fields that share a line share a segment)
 GroupOf(f) == CASE f \in {"author", "atime", "atz"} -> "author"
+                [] f = "blank" -> "message"
                 [] f \in {"committer", "ctime", "ctz"} -> "committer"
                 [] f \in {"tagger", "ttime", "ttz"} -> "tagger"
                 [] OTHER -> f
@@ -228,13 +236,14 @@ TagPool == [target    |-> << [h |-> 3, t |-> "commit"], [h |-> 1, t |-> "tree"],
             ttime     |-> TimePool,
             ttz       |-> TzPool,
             message   |-> MsgPool,
-            signature |-> << <<>>, PgpLines \o <<0>>, SshLines \o <<0>> >>]
-TagFields == <<"target", "name", "tagger", "ttime", "ttz", "message", "signature">>
+            signature |-> << <<>>, PgpLines \o <<0>>, SshLines \o <<0>> >>,
+            blank     |-> <<TRUE, FALSE, TRUE>>]        \* first and last index TRUE: both base cases have the blank line
+TagFields == <<"target", "name", "tagger", "ttime", "ttz", "message", "signature", "blank">>
 
 MTag1 == [target |-> [h |-> 4, t |-> "commit"], name |-> 1, tagger |-> <<1>>, ttime |-> TimePool[1], ttz |-> TzPool[3],
-          message |-> <<1, 0, 2, 0>>, signature |-> PgpLines \o <<0>>]
+          message |-> <<1, 0, 2, 0>>, signature |-> PgpLines \o <<0>>, blank |-> TRUE]
 MTag2 == [target |-> [h |-> 5, t |-> "commit"], name |-> 2, tagger |-> <<2>>, ttime |-> TimePool[4], ttz |-> TzPool[2],
-          message |-> <<1, 0>>, signature |-> SshLines \o <<0>>]
+          message |-> <<1, 0>>, signature |-> SshLines \o <<0>>, blank |-> TRUE]
 
 X(k, v) == [k |-> k, v |-> v]
 CommitPool == [tree      |-> <<1, 2>>,
@@ -253,9 +262,10 @@ CommitPool == [tree      |-> <<1, 2>>,
                                 <<X(1, <<11>>), X(2, <<12>>), X(1, <<0>>)>>,          \* duplicate key, empty value
                                 <<X(3, <<0, 4, 0, 5, 7>>)>> >>,                       \* value starts with LF; armour inside an unknown header
                gpgsig    |-> << <<>>, PgpLines, SshLines >>,
-               message   |-> MsgPool]
+               message   |-> MsgPool,
+               blank     |-> <<TRUE, FALSE, TRUE>>]
 CommitFields == <<"tree", "parents", "author", "atime", "atz", "committer", "ctime", "ctz",
-                  "encoding", "mergetags", "extra", "gpgsig", "message">>
+                  "encoding", "mergetags", "extra", "gpgsig", "message", "blank">>
 
 \* field triples used by the life-cycle replay (ObjFile): every field occurs in one
 CommitTriples == << <<"message", "parents", "atime">>, <<"tree", "author", "atz">>, <<"committer", "ctime", "ctz">>,
@@ -273,10 +283,13 @@ Last(P)  == [f \in DOMAIN P |-> Len(P[f])]
 CaseOf(P, ix) == [f \in DOMAIN P |-> P[f][ix[f]]]
 KeyStr(F, ix) == JoinStr([i \in 1..Len(F) |-> ToString(ix[F[i]])], ",")
 
-IxSpace(P, Tr) == Ball(P, First(P), Radius) \cup Ball(P, Last(P), Radius)
+\* third base case: the object ends after its last header (message index 2 = <<>>, blank index 2 = FALSE)
+NoBlank(P) == [First(P) EXCEPT !.message = 2, !.blank = 2]
+IxSpace(P, Tr) == Ball(P, First(P), Radius) \cup Ball(P, Last(P), Radius) \cup Ball(P, NoBlank(P), Radius - 1)
                   \cup UNION {Cube(P, First(P), Tr[i]) : i \in 1..Len(Tr)}
-CommitSpace == IxSpace(CommitPool, CommitTriples)
-TagSpace    == IxSpace(TagPool, TagTriples)
+\* (TLCEval: enumerate once; a lazily filtered set would be re-filtered on every membership test)
+CommitSpace == TLCEval({ix \in IxSpace(CommitPool, CommitTriples) : CommitOK(CaseOf(CommitPool, ix))})
+TagSpace    == TLCEval({ix \in IxSpace(TagPool, TagTriples) : TagOK(CaseOf(TagPool, ix))})
 
 \* trees: (1) ordering universe: every name of length 1..2 over Alphabet as file and as directory;
 \*        (2) mode universe: three names that collide on a prefix, every legal mode
@@ -292,8 +305,8 @@ OrderUniverse == {E(n, m) : n \in OrderNames, m \in {33188, 16384}}          \* 
 Modes == {33188, 33261, 33204, 40960, 16384, 57344}                          \* 100644 100755 100664 120000 40000 160000
 ModeUniverse == {E(n, m) : n \in {<<97>>, <<97, 46>>, <<97, 48>>}, m \in Modes}
 UpTo(U, k) == {S \in UNION {kSubset(j, U) : j \in 0..k} : TreeOK(S)}
-TreeSpace == UpTo(OrderUniverse, TreeMax) \cup UpTo(ModeUniverse, 3)
-TreeUniverse == OrderUniverse \cup ModeUniverse
+TreeSpace == TLCEval(UpTo(OrderUniverse, TreeMax) \cup UpTo(ModeUniverse, 3))
+TreeUniverse == TLCEval(OrderUniverse \cup ModeUniverse)
 
 TreeKey(S) == LET s == SortEntries(S) IN
     JoinStr([i \in 1..Len(s) |-> JoinStr([j \in 1..Len(s[i].name) |-> ToString(s[i].name[j])], ".") \o ":" \o ToString(s[i].mode) \o ":" \o ToString(s[i].sha)], " ")
@@ -318,23 +331,26 @@ GitStrictOK(k, c) == CASE k = "commit" -> ~c.atime.neg /\ ~c.ctime.neg
                        [] k = "tag"    -> Len(c.tagger) = 0 \/ ~c.ttime.neg
                        [] OTHER        -> TRUE
 
+\* the edit graph is explored without the token text (states are identified by kind and case)
+Toks(ts) == IF Edits THEN <<>> ELSE ToksStr(ts)
+
 Init ==
     \/ /\ "commit" \in Kinds /\ kind = "commit"
        /\ ix \in CommitSpace
        /\ case = CaseOf(CommitPool, ix) /\ key = KeyStr(CommitFields, ix)
-       /\ toks = ToksStr(SerCommit(case)) /\ strict = GitStrictOK(kind, case)
+       /\ toks = Toks(SerCommit(case)) /\ strict = GitStrictOK(kind, case)
     \/ /\ "tag" \in Kinds /\ kind = "tag"
        /\ ix \in TagSpace
        /\ case = CaseOf(TagPool, ix) /\ key = KeyStr(TagFields, ix)
-       /\ toks = ToksStr(SerTag(case)) /\ strict = GitStrictOK(kind, case)
+       /\ toks = Toks(SerTag(case)) /\ strict = GitStrictOK(kind, case)
     \/ /\ "tree" \in Kinds /\ kind = "tree"
        /\ case \in TreeSpace
        /\ ix = <<>> /\ key = TreeKey(case)
-       /\ toks = ToksStr(SerTree(case)) /\ strict = TRUE
+       /\ toks = Toks(SerTree(case)) /\ strict = TRUE
     \/ /\ "blob" \in Kinds /\ kind = "blob"
        /\ case \in BlobSpace
        /\ ix = <<>> /\ key = BlobKey(case)
-       /\ toks = ToksStr(SerBlob(case)) /\ strict = TRUE
+       /\ toks = Toks(SerBlob(case)) /\ strict = TRUE
 
 EditField(P, F, Space) ==
     \E f \in DOMAIN P : \E i \in 1..Len(P[f]) :
@@ -342,19 +358,20 @@ EditField(P, F, Space) ==
         /\ ix' = [ix EXCEPT ![f] = i]
         /\ ix' \in Space
         /\ case' = CaseOf(P, ix') /\ key' = KeyStr(F, ix')
-        /\ toks' = ToksStr(Ser(kind, case')) /\ strict' = GitStrictOK(kind, case')
+        /\ toks' = <<>> /\ strict' = GitStrictOK(kind, case')
         /\ UNCHANGED kind
 
 EditTree ==
     \E e \in TreeUniverse :
         /\ case' = IF e \in case THEN case \ {e} ELSE case \cup {e}
         /\ case' \in TreeSpace
-        /\ key' = TreeKey(case') /\ toks' = ToksStr(SerTree(case'))
+        /\ key' = TreeKey(case') /\ toks' = <<>>
         /\ UNCHANGED <<kind, ix, strict>>
 
-Next == \/ kind = "commit" /\ EditField(CommitPool, CommitFields, CommitSpace)
-        \/ kind = "tag" /\ EditField(TagPool, TagFields, TagSpace)
-        \/ kind = "tree" /\ EditTree
+Next == /\ Edits
+        /\ \/ kind = "commit" /\ EditField(CommitPool, CommitFields, CommitSpace)
+           \/ kind = "tag" /\ EditField(TagPool, TagFields, TagSpace)
+           \/ kind = "tree" /\ EditTree
 
 Spec == Init /\ [][Next]_vars
 
